@@ -122,7 +122,25 @@ fn run_behaviour(t: &Tables, hist: &[Value]) -> (u64, bool, Option<Value>) {
             eprintln!("HARNESS-ERROR {} on {}", obs["panic"], e);
             crate::HARNESS_ERRORS.fetch_add(1, std::sync::atomic::Ordering::SeqCst);
         }
-        let d = differs(e, &obs);
+        let mut d = differs(e, &obs);
+        if d.is_none() {
+            if let Some(ap) = e.get("allpos").and_then(|a| a.as_array()).filter(|a| !a.is_empty()) {
+                let h = e["it"].as_u64().unwrap() as usize - 1;
+                let offs: Vec<usize> = ap.iter().map(|x| x[0].as_u64().unwrap() as usize).collect();
+                let got = w.positions(h, &offs);
+                match got.as_array() {
+                    None => d = Some(format!("position query panicked: {got}")),
+                    Some(g) => {
+                        for (x, p) in ap.iter().zip(g.iter()) {
+                            if !x[1].as_array().unwrap().contains(p) {
+                                d = Some(format!("position({}) after this call: admissible {}, code {}", x[0], x[1], p));
+                                break;
+                            }
+                        }
+                    }
+                }
+            }
+        }
         observed.push(obs);
         if let Some(d) = d {
             let cfgs: Vec<Value> = hist
@@ -189,7 +207,10 @@ pub fn main(args: &[String]) -> i32 {
                 }
                 if amb {
                     local.ambiguous += 1;
-                    let e = local.groups.entry(key_of(hist)).or_insert((false, None));
+                    // members of a group share the calls up to and including the first call whose
+                    // result set was not a singleton; the code must agree with one member entirely
+                    let first = hist.iter().position(|e| e.get("nb").and_then(|n| n.as_u64()).unwrap_or(1) > 1).unwrap();
+                    let e = local.groups.entry(key_of(&hist[..=first])).or_insert((false, None));
                     match bad {
                         None => e.0 = true,
                         Some(b) => {
